@@ -765,6 +765,8 @@ class Tensor:
         # compute the flat offsets addressed by the key by indexing a tensor of offsets
         offs = Tensor(self.shape, list(range(len(self.els))))._getitem_copy(self._norm_key(key))
         if isinstance(value, Tensor):
+            while len(value.shape) > len(offs.shape) and value.shape and value.shape[0] == 1:
+                value = Tensor(value.shape[1:], value.els)             # torch drops leading singleton dimensions of the value
             try:
                 v = value.expand_to(offs.shape).els if value.shape != offs.shape else value.els
             except Unsupported:
